@@ -35,9 +35,9 @@ def gen(rng, tier):
     else:
         st = nominal
     kind = str(rng.choice(["potential", "potential", "array", "crystal", "frozen"]))
-    reps = [1, 1, int(rng.integers(1, 3))] if kind == "crystal" else None
-    if kind == "crystal" and not isinstance(st, float):
-        st = nominal
+    reps = [int(rng.integers(1, 3)), 1, int(rng.integers(1, 4))] if kind == "crystal" else None
+    if kind == "crystal" and not isinstance(st, float) and rng.random() < 0.4:
+        st = nominal     # (unequal unit-cell thicknesses stay in the workload for the repeated crystal)
     total = nz * (reps[2] if reps else 1)
     if rng.random() < 0.5 or kind == "crystal":
         ep = int(rng.integers(1, total + 2))
@@ -74,12 +74,12 @@ def _detector(case, builder):
     return None
 
 
-def _builder(case, extent):
+def _builder(case, extent, gpts=None):
     import abtem
+    gpts = tuple(case["gpts"]) if gpts is None else tuple(int(n) for n in gpts)
     if case["builder"] == "probe":
-        return abtem.Probe(energy=case["energy"], semiangle_cutoff=20.0, gpts=tuple(case["gpts"]), extent=extent,
-                           defocus=30.0)
-    return abtem.PlaneWave(energy=case["energy"], gpts=tuple(case["gpts"]), extent=extent)
+        return abtem.Probe(energy=case["energy"], semiangle_cutoff=20.0, gpts=gpts, extent=extent, defocus=30.0)
+    return abtem.PlaneWave(energy=case["energy"], gpts=gpts, extent=extent)
 
 
 def _run(builder, case, potential, lazy):
@@ -128,6 +128,7 @@ def check(ctx, case):
         pot = abtem.CrystalPotential(unit, repetitions=reps, exit_planes=ep_arg)
         pa = arrays[0]
         tiled = np.tile(pa.array, (reps[2], reps[0], reps[1]))
+        # z-repetition repeats the whole unit sequence (t0, t1, ..., t0, t1, ...), not each slice in turn
         arrays = [abtem.PotentialArray(tiled, slice_thickness=tuple(pa.slice_thickness) * reps[2],
                                        sampling=pa.sampling)]
     elif kind == "array":
@@ -162,7 +163,7 @@ def check(ctx, case):
     want_t = [0.0 if p == -1 else float(cum[p]) for p in planes]
     ctx.close(pot.exit_thicknesses, want_t, "thickness-axis", rtol=1e-6, atol=1e-6)
 
-    builder = _builder(case, arrays[0].extent)
+    builder = _builder(case, arrays[0].extent, arrays[0].array.shape[-2:])
     got = _run(builder, case, pot, case["lazy"])
     garr = G.to_numpy(got)
     # locate the thickness axis and (for frozen phonons) the configuration axis
@@ -196,7 +197,7 @@ def check(ctx, case):
         ctx.monitor("configs-checked")
         for j, p in enumerate(planes):
             if p == -1:
-                ref_builder = _builder(case, pa.extent)
+                ref_builder = _builder(case, pa.extent, pa.array.shape[-2:])
                 if case["builder"] == "probe":
                     inc = ref_builder.build(scan=abtem_custom_scan(case, pa), lazy=False)
                 else:
@@ -207,7 +208,7 @@ def check(ctx, case):
             else:
                 trunc = abtem.PotentialArray(pa.array[: p + 1], slice_thickness=tuple(pa.slice_thickness[: p + 1]),
                                              sampling=pa.sampling)
-                ref = _run(_builder(case, pa.extent), case, trunc, False)
+                ref = _run(_builder(case, pa.extent, pa.array.shape[-2:]), case, trunc, False)
                 clause = "last-equals-full" if p == nslices - 1 else "plane"
             r = G.to_numpy(ref)
             g = take(garr, k, j)
